@@ -2,6 +2,7 @@ package sim
 
 import (
 	"fmt"
+	"reflect"
 	"sort"
 	"strings"
 	"sync"
@@ -238,16 +239,25 @@ func Execute(t *testing.T, spec RunSpec) (res *RunResult) {
 }
 
 func trimStack(st string) string {
+	// function names only: argument values and file offsets contain addresses, which must not
+	// leak into the event log (its hash identifies the run)
 	lines := strings.Split(st, "\n")
 	var out []string
 	for _, l := range lines {
-		if strings.Contains(l, "/knx-go/knx/") || strings.Contains(l, "knx.") || strings.Contains(l, "knxnet.") || strings.Contains(l, "cemi.") || strings.Contains(l, "util.") || strings.Contains(l, "dpt.") {
-			if strings.Contains(l, "simrt") || strings.Contains(l, "simnet") {
-				continue
-			}
-			out = append(out, strings.TrimSpace(l))
+		if strings.HasPrefix(l, "\t") || strings.HasPrefix(l, " ") {
+			continue
 		}
-		if len(out) >= 12 {
+		if !strings.Contains(l, "github.com/vapourismo/knx-go/knx") {
+			continue
+		}
+		if strings.Contains(l, "/simrt.") || strings.Contains(l, "/simnet.") {
+			continue
+		}
+		if i := strings.LastIndex(l, "("); i > 0 && strings.HasSuffix(strings.TrimSpace(l), ")") {
+			l = l[:i]
+		}
+		out = append(out, strings.TrimSpace(l))
+		if len(out) >= 10 {
 			break
 		}
 	}
@@ -316,4 +326,71 @@ func (e *Env) Call(name string, d time.Duration, fn func()) bool {
 	fin := false
 	e.S.Spawn(name, func() { fn(); fin = true })
 	return e.WaitDone(name, d, func() bool { return fin })
+}
+
+// dump renders a value without pointer addresses (violation details are part of the event log
+// whose hash must not depend on where the allocator put things).
+func dump(v interface{}) string {
+	var b strings.Builder
+	dumpValue(&b, reflect.ValueOf(v), 0)
+	return b.String()
+}
+
+func dumpValue(b *strings.Builder, v reflect.Value, depth int) {
+	if depth > 8 {
+		b.WriteString("…")
+		return
+	}
+	if !v.IsValid() {
+		b.WriteString("nil")
+		return
+	}
+	switch v.Kind() {
+	case reflect.Ptr, reflect.Interface:
+		if v.IsNil() {
+			b.WriteString("nil")
+			return
+		}
+		if v.Kind() == reflect.Ptr {
+			b.WriteString("&")
+		}
+		dumpValue(b, v.Elem(), depth+1)
+	case reflect.Struct:
+		b.WriteString(v.Type().String() + "{")
+		for i := 0; i < v.NumField(); i++ {
+			if i > 0 {
+				b.WriteString(" ")
+			}
+			b.WriteString(v.Type().Field(i).Name + ":")
+			dumpValue(b, v.Field(i), depth+1)
+		}
+		b.WriteString("}")
+	case reflect.Slice, reflect.Array:
+		if v.Type().Elem().Kind() == reflect.Uint8 {
+			n := v.Len()
+			fmt.Fprintf(b, "[%d]x", n)
+			for i := 0; i < n && i < 48; i++ {
+				fmt.Fprintf(b, "%02x", v.Index(i).Uint())
+			}
+			return
+		}
+		b.WriteString("[")
+		for i := 0; i < v.Len(); i++ {
+			if i > 0 {
+				b.WriteString(" ")
+			}
+			dumpValue(b, v.Index(i), depth+1)
+		}
+		b.WriteString("]")
+	case reflect.String:
+		fmt.Fprintf(b, "%q", v.String())
+	case reflect.Bool:
+		fmt.Fprintf(b, "%v", v.Bool())
+	case reflect.Int, reflect.Int8, reflect.Int16, reflect.Int32, reflect.Int64:
+		fmt.Fprintf(b, "%d", v.Int())
+	case reflect.Uint, reflect.Uint8, reflect.Uint16, reflect.Uint32, reflect.Uint64:
+		fmt.Fprintf(b, "%d", v.Uint())
+	default:
+		b.WriteString(v.Type().String())
+	}
 }
